@@ -683,6 +683,8 @@ type respChunk struct {
 	mint, maxt int64
 	id         int
 	size       int
+	enc        storepb.Chunk_Encoding
+	data       string // copy of the raw chunk bytes
 }
 
 func (s *seriesServer) Context() context.Context { return s.ctx }
@@ -693,6 +695,7 @@ func (s *seriesServer) add(sr *storepb.Series) {
 		rc := respChunk{mint: c.MinTime, maxt: c.MaxTime, id: -9, size: c.Size()}
 		if c.Raw != nil {
 			rc.id = chunkID(c.Raw.Type, c.Raw.Data)
+			rc.enc, rc.data = c.Raw.Type, string(c.Raw.Data)
 		}
 		f.chunks = append(f.chunks, rc)
 	}
